@@ -20,6 +20,7 @@ Definitions used in the statements (`Lemmas/DpLive*.lean`):
   ident, parameter length, configuration bytes, image lengths), well-formed slave memory.
 -/
 import ProfiVerif.Lemmas.DpLiveRuns
+import ProfiVerif.Lemmas.DpLiveMaster
 
 namespace PV.C07
 open PV PV.Dp PV.Live
@@ -284,6 +285,27 @@ theorem offline_online {j0 : PJ} (hg0 : Good j0) (hi : Initial j0) (es : List PE
   rw [h5] at h7
   simp only [Option.some.injEq, Prod.mk.injEq] at h7
   rw [h7.1]; exact h8
+
+/-! ## The master level
+
+The theorems above are about visits of the peripheral (`PJ`).  The correspondence engine `dplive`
+drives the whole `DpMaster` (`Joint.turn`: one `transmit_telegram` call of the `FdlApplication`, global
+control, cycle bookkeeping, `take_last_events`).  For a master holding one peripheral the two levels are
+related turn by turn. -/
+
+/-- **master_turn.**  One `transmit_telegram(now, …)` of a master in Operate whose only peripheral sits in
+slot 0, against the slave, under any delivery: it never panics or hangs (for times within ±2^62 µs), and
+it is (`TurnKind`) a global-control broadcast the slave ignores, or a turn that only closes the DP cycle,
+or exactly one visit `PJ.visit` of the peripheral with that delivery whose event is the one
+`take_last_events` reports; after a visit the cycle is closed by the reply (`completed`) or still points
+at the peripheral.  Hence at most one cycle-closing turn lies between two visits:
+`2 (max_retry_limit + 8) + 1` turns that are not broadcasts contain `max_retry_limit + 8` visits — the
+bound the `C07` oracle applies to the real `DpMaster`. -/
+theorem master_turn {J : Joint} {p : Peripheral} (hS : Single J.m p) (hslot : J.slot = 0)
+    (hg : Good ⟨J.fp, J.m.op, p, J.s⟩) (ha : J.s.cfg.address ≠ 127) {now : Int} (hnow : timeB now)
+    (hgc : ∀ t, J.m.lastGc = some t → timeB t) (mid : Bool) {d : Delivery} (hd : ∀ t, d = .sub t → RxOk t) :
+    ∃ J' o, J.turn now mid d = .ok J' o ∧ TurnKind J p mid d J' o :=
+  turn_single hS hslot hg ha hnow hgc mid hd
 
 /-! ## Non-vacuity -/
 
